@@ -372,6 +372,22 @@ fn cross_and_padding(run: &mut Run, rng: &mut Rng, prof: &str, i: usize) {
     emit(run, "forge", &Case { ops, kind: "cross-protocol-and-authentic-bad-padding" });
 }
 
+/// At the `MAX_RX_CONTEXTS` cap: forged packets with new SSRCs and AUTHENTIC packets of new SSRCs
+/// (refused: table full) must leave both receivers exactly as they were; known streams go on.
+fn at_the_cap(run: &mut Run, rng: &mut Rng, prof: &str, i: usize) {
+    let mut ops = new_three(rng, i, prof);
+    ops.push(Op::Fill(S, A, 0x5000, 1024));
+    ops.push(Op::Fill(S, B, 0x5000, 1024));
+    let mut slot = 0;
+    // a known stream, a new stream (authentic, refused), forged variants of both
+    ops.push(Op::ProtectRtp(S, PktSpec::simple(2, 0x5000, vec![7, 7]))); both(&mut ops, false, slot); let known = slot; slot += 1;
+    ops.push(Op::ProtectRtp(S, PktSpec::simple(1, 0x9999, vec![8, 8]))); both(&mut ops, false, slot); let fresh = slot; slot += 1;
+    for n in 0..6u32 { forged(&mut ops, false, fresh, Mut::Ssrc(0x7000_0000 + n)); forged(&mut ops, false, known, Mut::Flip(100 + n as usize)); }
+    ops.push(Op::ProtectRtcp(S, Src::Lit(rtcp_packet(rng, 0x9998, 12)))); both(&mut ops, true, slot); slot += 1;
+    ops.push(Op::ProtectRtp(S, PktSpec::simple(3, 0x5000, vec![9]))); both(&mut ops, false, slot);
+    emit(run, "forge", &Case { ops, kind: "at-the-context-cap" });
+}
+
 /// the eviction rule itself on genuine SSRC churn (model correspondence of the table logic)
 fn churn(rng: &mut Rng, i: usize, prof: &str) -> Case {
     let mut ops = new_three(rng, i, prof);
@@ -420,6 +436,7 @@ pub fn run(args: &Args) {
         refresh_attack(&mut run, &mut rng, prof, pi, false);
         refresh_attack(&mut run, &mut rng, prof, pi, true);
         cross_and_padding(&mut run, &mut rng, prof, pi);
+        at_the_cap(&mut run, &mut rng, prof, pi);
     }
     let ni = if t { 30000 } else { 600 };
     for i in 0..ni { let c = interleaved(&mut rng, i, PROFILES[i % 4]); emit(&mut run, "forge", &c); }
